@@ -23,9 +23,10 @@ pub fn axis(top: f32, n: u32) -> Vec<f32> {
 
 pub fn to_xyb(px: &[[f32; 3]]) -> Result<Vec<[f32; 3]>, String> {
     let len = px.len();
-    let lin = LinearRgb::new(px.to_vec(), len, 1).map_err(|e| format!("{e:?}"))?;
+    let (w, h) = crate::img::shape_of(len);
+    let lin = LinearRgb::new(px.to_vec(), w, h).map_err(|e| format!("{e:?}"))?;
     let xyb = guarded(|| Xyb::from(lin))?;
-    if xyb.width() != len || xyb.height() != 1 || xyb.data().len() != len {
+    if xyb.width() != w || xyb.height() != h || xyb.data().len() != len {
         return Err(format!("dims changed to {}x{}", xyb.width(), xyb.height()));
     }
     Ok(xyb.data().to_vec())
@@ -146,9 +147,10 @@ fn check_rt(acc: &mut Acc, base: u64, px: &[[f32; 3]]) {
     acc.transitions += 2 * px.len() as u64;
     let len = px.len();
     let res = (|| -> Result<Vec<[f32; 3]>, String> {
-        let lin = LinearRgb::new(px.to_vec(), len, 1).map_err(|e| format!("{e:?}"))?;
+        let (w, h) = crate::img::shape_of(len);
+        let lin = LinearRgb::new(px.to_vec(), w, h).map_err(|e| format!("{e:?}"))?;
         let back = guarded(|| LinearRgb::from(Xyb::from(lin)))?;
-        if back.width() != len || back.height() != 1 || back.data().len() != len {
+        if back.width() != w || back.height() != h || back.data().len() != len {
             return Err("dims changed".into());
         }
         Ok(back.data().to_vec())
